@@ -28,6 +28,30 @@ class PanicExc(Exception):
         self.msg = msg
 
 
+def _nonlinear(e, _memo=None):
+    """does the term multiply / divide two non-constant sub-terms?"""
+    if _memo is None:
+        _memo = {}
+    k = e.get_id()
+    if k in _memo:
+        return _memo[k]
+    r = False
+    if z3.is_app(e):
+        kind = e.decl().kind()
+        ch = e.children()
+        if kind in (z3.Z3_OP_MUL,):
+            r = sum(1 for c in ch if not z3.is_rational_value(c) and not z3.is_int_value(c)) > 1
+        elif kind in (z3.Z3_OP_DIV, z3.Z3_OP_IDIV, z3.Z3_OP_MOD, z3.Z3_OP_REM, z3.Z3_OP_POWER):
+            r = not (z3.is_rational_value(ch[1]) or z3.is_int_value(ch[1]))
+        if not r:
+            r = any(_nonlinear(c, _memo) for c in ch)
+    _memo[k] = r
+    return r
+
+
+DEBUG_FORKS = {} if os.environ.get("M2S_DEBUG_FORKS") else None
+
+
 class Outcome:
     __slots__ = ("st", "kind", "val")
 
@@ -73,6 +97,8 @@ class Engine:
     def __init__(self, mir, mode="real", timeout_ms=20000, max_paths=4000, loop_bound=40, merge=True):
         self.mir = mir
         self.mode = mode  # 'real' (symbolic, exact reals) | 'float' (concrete python floats)
+        self.global_assumptions = []  # the harness's domain assumptions (also asserted in self.solver)
+        self.lin_solver = None
         self.solver = z3.Solver()
         self.solver.set("timeout", int(os.environ.get("M2S_FEAS_TIMEOUT_MS", "400")))
         self.solver.set("rlimit", int(os.environ.get("M2S_FEAS_RLIMIT", "300000")))
@@ -121,6 +147,31 @@ class Engine:
         # once the solver has answered `unknown` a few times on this harness (hard nonlinear path conditions),
         # stop asking: exploring a possibly infeasible path is sound (its obligations carry the path condition)
         if self.stats.get("feas_unknown", 0) >= self.feas_unknown_budget:
+            # the nonlinear solver keeps answering `unknown` on this harness: fall back to the solver with nonlinear reasoning
+            # switched off (products of symbolic terms are opaque monomials). Its `unsat` is a proof, so pruning on it is sound;
+            # anything else is treated as feasible.
+            if not os.environ.get("M2S_LIN_FEAS"):
+                # (off by default: on the harnesses tried so far the extra queries cost more than the paths they prune)
+                self.stats["feas_assumed"] = self.stats.get("feas_assumed", 0) + 1
+                return True
+            if self.lin_solver is None:
+                self.lin_solver = z3.SimpleSolver()
+                self.lin_solver.set("arith.nl", False)
+                self.lin_solver.set("timeout", 1000)
+                for c in self.global_assumptions:
+                    self.lin_solver.add(c)
+            t = time.time()
+            self.lin_solver.push()
+            for c in st.pc:
+                self.lin_solver.add(c)
+            if cond is not None:
+                self.lin_solver.add(cond)
+            r = self.lin_solver.check()
+            self.lin_solver.pop()
+            self.stats["feas_time"] += time.time() - t
+            self.stats["feas_lin_queries"] = self.stats.get("feas_lin_queries", 0) + 1
+            if r == z3.unsat:
+                return False
             self.stats["feas_assumed"] = self.stats.get("feas_assumed", 0) + 1
             return True
         cs = list(st.pc)
@@ -568,6 +619,76 @@ class Engine:
         raise Unsupported("rvalue " + k)
 
     # ------------------------------------------------------------ arithmetic
+    # ---- infinities produced by a division by a concrete zero (IEEE semantics, as markers; every symbolic input is finite)
+    @staticmethod
+    def _is_inf(v):
+        return (isinstance(v, Opaque) and v.tag in ("+inf", "-inf")) or (isinstance(v, float) and v in (float("inf"), float("-inf")))
+
+    def _inf_sign(self, v):
+        if isinstance(v, Opaque):
+            return 1 if v.tag == "+inf" else -1
+        return 1 if v > 0 else -1
+
+    def _mk_inf(self, sign):
+        if self.mode == "float":
+            return float("inf") if sign > 0 else float("-inf")
+        return Opaque("+inf" if sign > 0 else "-inf")
+
+    def sign_of(self, st, x):
+        """+1 / -1 / 0 when the path condition decides the sign of the finite scalar x, else Unsupported"""
+        if is_conc(x):
+            return (x > 0) - (x < 0)
+        x = to_z3(x)
+        # cheap and robust first: decide from the linear part of the path condition alone (fewer hypotheses: still sound)
+        lin = [c for c in list(self.global_assumptions) + list(st.pc) if is_z3(c) and not _nonlinear(c)]
+        s0 = z3.Solver()
+        s0.set("timeout", 2000)
+        for c in lin:
+            s0.add(c)
+        for (cond, sg) in ((x <= 0, 1), (x >= 0, -1), (x != 0, 0)):
+            s0.push()
+            s0.add(cond)
+            r = s0.check()
+            s0.pop()
+            if r == z3.unsat:
+                return sg
+        pos, neg, zero = self.feasible(st, x > 0), self.feasible(st, x < 0), self.feasible(st, x == 0)
+        if pos and not neg and not zero:
+            return 1
+        if neg and not pos and not zero:
+            return -1
+        if zero and not pos and not neg:
+            return 0
+        raise Unsupported("sign of an operand combined with an infinity (x / 0) is not decided by the path condition")
+
+    def _inf_binop(self, st, op, a, b):
+        ia, ib = self._is_inf(a), self._is_inf(b)
+        nan = float("nan") if self.mode == "float" else Opaque("NaN")
+        if (not ia and not is_scalar(a)) or (not ib and not is_scalar(b)):
+            return NotImplemented
+        if op in ("Add", "Sub"):
+            sb = (self._inf_sign(b) if ib else 0) * (1 if op == "Add" else -1)
+            sa = self._inf_sign(a) if ia else 0
+            if sa and sb and sa != sb:
+                return nan
+            return self._mk_inf(sa or sb)
+        if op == "Mul":
+            s1 = self._inf_sign(a) if ia else self.sign_of(st, a)
+            s2 = self._inf_sign(b) if ib else self.sign_of(st, b)
+            return nan if s1 * s2 == 0 else self._mk_inf(s1 * s2)
+        if op == "Div":
+            if ia and ib:
+                return nan
+            if ib:
+                return self.flt(0.0)
+            s2 = self.sign_of(st, b)
+            return self._mk_inf(self._inf_sign(a) * (s2 if s2 != 0 else 1))
+        if op in ("Eq", "Ne", "Lt", "Le", "Gt", "Ge"):
+            va = self._inf_sign(a) * 2 if ia else 0
+            vb = self._inf_sign(b) * 2 if ib else 0
+            return {"Eq": va == vb and ia and ib, "Ne": not (va == vb and ia and ib), "Lt": va < vb, "Le": va < vb or (ia and ib and va == vb), "Gt": va > vb, "Ge": va > vb or (ia and ib and va == vb)}[op]
+        return NotImplemented
+
     def _fdiv_event(self, st, b, where="f64 division"):
         if is_conc(b):
             if b == 0:
@@ -586,6 +707,10 @@ class Engine:
         if isinstance(a, Enum) and isinstance(b, Enum) and op in ("Eq", "Ne"):
             r = a.variant == b.variant
             return r if op == "Eq" else not r
+        if self._is_inf(a) or self._is_inf(b):
+            r = self._inf_binop(st, op, a, b)
+            if r is not NotImplemented:
+                return r
         nan_a = isinstance(a, Opaque) and a.tag == "NaN"
         nan_b = isinstance(b, Opaque) and b.tag == "NaN"
         if (nan_a or nan_b) and (nan_a or is_scalar(a)) and (nan_b or is_scalar(b)):
@@ -610,6 +735,10 @@ class Engine:
             r = a * b
         elif op == "Div":
             if is_real(a) or is_real(b):
+                if is_conc(b_orig) and b_orig == 0:
+                    # IEEE: x / 0 is +-inf by the sign of x (NaN for 0 / 0); the sign must be decided by the path condition
+                    sgn = self.sign_of(st, a)
+                    return (float("nan") if self.mode == "float" else Opaque("NaN")) if sgn == 0 else self._mk_inf(sgn)
                 self._fdiv_event(st, b)
                 r = a / b
             else:
@@ -714,6 +843,8 @@ class Engine:
         if op == "Neg":
             if isinstance(a, Opaque) and a.tag == "NaN":
                 return a
+            if isinstance(a, Opaque) and a.tag in ("+inf", "-inf"):
+                return Opaque("-inf" if a.tag == "+inf" else "+inf")
             return -a
         raise Unsupported("unop " + op)
 
@@ -1046,7 +1177,7 @@ class Engine:
                             raise Unsupported("resume")
                         elif k == "switch":
                             v = self.eval_operand(st, fid, body, s[1])
-                            nxt = self._switch(st, v, s[2], work, visits)
+                            self._cur_body = body.name[-70:]; nxt = self._switch(st, v, s[2], work, visits)
                         elif k == "assert":
                             v = self.eval_operand(st, fid, body, s[1])
                             if s[2]:
@@ -1177,6 +1308,8 @@ class Engine:
                 feas.append((bb, c))
         if not feas:
             return None
+        if len(feas) > 1 and DEBUG_FORKS is not None:
+            DEBUG_FORKS[self._cur_body] = DEBUG_FORKS.get(self._cur_body, 0) + 1
         for bb, c in feas[1:]:
             s2 = st.fork()
             s2.assume(c)
